@@ -4,6 +4,7 @@ resolved against the model at run time, the reference ISO 14229-1 default-respon
 from __future__ import annotations
 
 import asyncio
+import os
 from typing import Any
 
 from hypothesis import strategies as st
@@ -209,6 +210,9 @@ op = st.one_of(
     st.tuples(st.just("dsc_any"), st.integers(0, 0x7F), st.booleans()),
     st.tuples(st.just("raw"), st.binary(min_size=1, max_size=12)),
     st.tuples(st.just("sid_payload"), st.integers(0, 255), st.binary(max_size=8)),
+    # requests that reach the stateful service handlers when the service is offered
+    st.tuples(st.just("raw"), st.sampled_from([b"\x19\x02\xff", b"\x19\x02\x08", b"\x19\x02\x00", b"\x14\xff\xff\xff", b"\x22\xf1\x90",
+                                               b"\x2e\xf1\x90\x01", b"\x31\x01\xff\x00", b"\x2f\x12\x34\x03\x01", b"\x11\x04", b"\x11\x01"])),
     st.tuples(st.just("svc_offered"), st.integers(0, 50), st.binary(max_size=6)),
     st.tuples(st.just("svc_offered_sf"), st.integers(0, 50), st.integers(0, 50), st.booleans(), st.binary(max_size=5)),
     st.tuples(st.just("valid"), refcodec.request_case()),
@@ -281,6 +285,13 @@ def resolve(o: tuple[Any, ...], model: dict[int, dict[int, list[int] | None]], s
 
 def make_server(seed: int, params: dict[str, Any], off: list[str]) -> Any:
     from gallia.services.uds.server import RandomUDSServer, UDSServer
+
+    if os.environ.get("VF_VIA_COMMAND") == "1":
+        # the way a user starts it: gallia script vecu rng --seed S <params> (command layer builds the server)
+        from gallia.commands.script.vecu import RngVirtualECU, RngVirtualECUConfig
+
+        cfg = RngVirtualECUConfig(target="unix-lines:///tmp/vf-unused.sock", seed=seed, **params, **{k: False for k in off})
+        return RngVirtualECU(cfg)._server()
 
     rp = RandomUDSServer.RandomnessParameters(**params) if params else None
     beh = UDSServer.Behavior(**{k: False for k in off}) if off else None
